@@ -49,7 +49,7 @@ buckets! {
     ndim_feb_leap, ndim_feb_common, ndim_30, ndim_31, ndim_century_common, ndim_400_leap,
     month_num_days_in_range, month_num_days_out_of_range_year, quarter_checked, year_ce_bce, year_ce_ce, misc_wall_date_in_headroom,
     // thorough/quick product walk
-    product_walk_date,
+    product_walk_date, deprecated_panicking_twins,
 }
 
 /// Buckets that are informative only (may legitimately be empty in some run).
@@ -411,7 +411,11 @@ pub fn run(ctx: &Ctx) -> Outcome {
             return rep.finish(ctx, "self-test failed", &[]);
         }
     }
-    let phases: [(&str, fn(&Ctx, &Report)); 8] = [
+    fn twins_phase(ctx: &Ctx, rep: &Report) {
+        crate::props::twins::c08(ctx, rep, Bk::deprecated_panicking_twins as usize);
+    }
+    let phases: [(&str, fn(&Ctx, &Report)); 9] = [
+        ("deprecated_twins", twins_phase),
         ("product_walk", product_walk),
         ("months", months_phase),
         ("with_date", with_date_phase),
